@@ -71,6 +71,11 @@ func writeQ4(w io.Writer, eds *rsmt2d.ExtendedDataSquare) error {
 	return nil
 }
 
+// ValidateQ4Size checks the size of the Q4 file under the given FS path.
+func ValidateQ4Size(path string, eds *rsmt2d.ExtendedDataSquare) error {
+	return validateQ4Size(path, eds)
+}
+
 func validateQ4Size(path string, eds *rsmt2d.ExtendedDataSquare) error {
 	f, err := os.Open(path)
 	if err != nil {
